@@ -4,7 +4,7 @@
 set -e
 export GOFLAGS=-mod=mod GOPROXY=off GOSUMDB=off GOTOOLCHAIN=local
 REPO=${VERIF_REPO:-/repo}
-H=/verif/harness
+H=${VERIF_DIR:-/verif}/harness
 tmp=$(mktemp)
 sed -e 's#^module .*#module verif/harness#' "$REPO/go.mod" > "$tmp"
 cat >> "$tmp" <<EOT
